@@ -175,7 +175,7 @@ func init() {
 		l3Unit("numbers", map[string]int{"KINDS": 6, "DEPTH": 0}, "C05.", "number/integer properties: 7 bound shapes x nullable x required x inline/$ref"),
 		l3Unit("numbers-with-defaults", map[string]int{"KINDS": 6, "DEPTH": 0, "DEFAULTS": 1, "NONULL": 1, "NUMSHAPES": 4}, "C05.", "number/integer properties with a default that satisfies their own bounds: absent or null optional values are never bound-checked"),
 		l3Unit("numbers-in-arrays-and-objects", map[string]int{"KINDS": 48, "DEPTH": 1, "ITEMKINDS": 6, "NUMSHAPES": 4}, "C05.", "numbers as array items and as members of a nested object"),
-		l3UnitT("integers/min-sized", map[string]int{"KINDS": 4, "DEPTH": 0, "MINSIZED": 1, "NUMSHAPEMASK": 40, "REF": 0}, map[string]int{"KINDS": 4, "DEPTH": 0, "MINSIZED": 1}, "C05.", "integer properties with --min-sized-ints on and off (the option may narrow the Go type but the emitted bounds must still denote the stated interval)"),
+		l3UnitT("integers/min-sized", map[string]int{"KINDS": 4, "DEPTH": 0, "MINSIZED": 1, "NUMSHAPEMASK": 46, "REF": 0}, map[string]int{"KINDS": 4, "DEPTH": 0, "MINSIZED": 1}, "C05.", "integer properties with --min-sized-ints on and off (the option may narrow the Go type but the emitted bounds must still denote the stated interval)"),
 		l3UnitT("multiple-of", map[string]int{"KINDS": 6, "DEPTH": 0, "NUMSHAPES": 2, "MULT": 6}, map[string]int{"KINDS": 6, "DEPTH": 0, "NUMSHAPES": 4, "MULT": 6}, "C05.",
 			"number/integer properties with multipleOf 1, 0.5, 3, 2.5 or 300 (integral and fractional, alone or next to bounds) x nullable x required x inline/$ref: accepted iff the value is an exact multiple (remainders within the emitted 1e-10 tolerance carry no promise)"))
 	reg(&Property{
@@ -247,6 +247,8 @@ func init() {
 			"number/integer properties with multipleOf (integral, fractional, larger than a narrow type) with and without --min-sized-ints: the emitted remainder test type-checks (math import, operand conversions, constant operands)")),
 		Assumptions: []string{"go/types with the real dependency packages decides type-correctness; gofmt stability is checked on the text with hole identifiers (holes never sit in aligned columns)"}})
 	reg(&Property{ID: "C02", Units: append(l3All("C02."),
+		l3UnitT("integers/min-sized", map[string]int{"KINDS": 4, "DEPTH": 0, "MINSIZED": 1, "NUMSHAPEMASK": 14, "REF": 0}, map[string]int{"KINDS": 4, "DEPTH": 0, "MINSIZED": 1}, "C02.",
+			"integer properties with one-sided and two-sided bounds, with --min-sized-ints on and off: every value inside the stated interval is accepted and kept (the narrowed Go type must hold all of them)"),
 		l3Unit("objects-with-additional-properties", map[string]int{"KINDS": 16384, "DEPTH": 1, "E": 2, "N": 1}, "C02.",
 			"an object with a declared property AND typed additionalProperties (struct with an AdditionalProperties map): valid documents are accepted, exactly the undeclared members that are present are collected in the map with their values, and marshal-back reproduces the declared values"),
 		l3Unit("defaults", map[string]int{"KINDS": 15, "DEPTH": 0, "DEFAULTS": 1, "NUMSHAPES": 4, "STRSHAPES": 3, "NONULL": 1}, "C02.",
@@ -435,7 +437,7 @@ func init() {
 				Bounds: "exact-grid mode: every bound is n/4 with |b| <= 2^36 (float64 arithmetic of the kernel -- comparisons, +-1.0, Ceil/Floor/Round -- is exact there and is encoded as integer arithmetic), x any integer with |x| <= 2^36; covers all 36 presence/kind shapes, every relative order of the bounds and every 8/16/32-bit type limit; 64-bit limits and other magnitudes: thorough tier (FP mode)",
 				Quick:  map[string]int{"GRID": 2, "GRIDMAG": 36},
 				Panic:  "violation"},
-			l3UnitT("integers/min-sized-through-emitted-code", map[string]int{"KINDS": 4, "DEPTH": 0, "MINSIZED": 1, "NUMSHAPEMASK": 40}, map[string]int{"KINDS": 4, "DEPTH": 0, "MINSIZED": 1}, "C15.",
+			l3UnitT("integers/min-sized-through-emitted-code", map[string]int{"KINDS": 4, "DEPTH": 0, "MINSIZED": 1, "NUMSHAPEMASK": 46, "REF": 0}, map[string]int{"KINDS": 4, "DEPTH": 0, "MINSIZED": 1}, "C15.",
 				"integer properties (required, optional, nullable, inline and via $ref) generated with --min-sized-ints: the emitted program accepts a symbolic document iff the value lies in the stated interval (the same reference model as without the flag: acceptance does not change)"),
 			{Name: "min-int-type/float64-semantics", Harness: "pkg/codegen:HarnessC15L1F", Layer: "L1", OnlyThorough: true,
 				Desc:   "same harness with true IEEE float64 semantics (SMT FloatingPoint 11 53): representable / sound-removal / narrowest for bounds of any magnitude below 2^64",
